@@ -251,7 +251,8 @@ pub fn gen_doc(rng: &mut Rng, apps: &[AppSpec], want_offer: Option<bool>, cohort
             doc_app(id, *k, rng, cohorts)
         })
         .collect();
-    (DocSpec { daystart: gen_daystart(rng), apps: apps_out }, label)
+    let wrap = if rng.chance(1, 6) { 1 + rng.below(3) as u8 } else { 0 };
+    (DocSpec { daystart: gen_daystart(rng), apps: apps_out, wrap }, label)
 }
 
 pub fn n_offered(doc: &DocSpec) -> usize {
@@ -269,6 +270,104 @@ pub fn garbage_body(rng: &mut Rng) -> Vec<u8> {
             rng.bytes(n)
         }
     }
+}
+
+/// A body that is *almost* a valid Omaha response: a well-formed document with one mandatory attribute
+/// removed, or followed by trailing non-whitespace bytes.  Every variant must be a parse failure.
+pub fn near_valid_garbage(rng: &mut Rng, apps: &[AppSpec]) -> (Vec<u8>, &'static str) {
+    let (mut doc, _) = gen_doc(rng, apps, Some(true), true);
+    doc.wrap = 0;
+    // make sure the first offered app carries a manifest and urls, so every variant below applies
+    let oi = doc.apps.iter().position(|a| a.updatecheck.as_ref().map(|u| u.status == "ok").unwrap_or(false)).unwrap_or(0);
+    doc.apps[oi].updatecheck = Some(UcSpec::ok(Some("9.9.9.9")));
+    let bytes = crate::sim::omaha::render_doc(&doc);
+    let mut v: Value = serde_json::from_slice(&bytes).unwrap();
+    let variant = rng.below(12);
+    let label: &'static str;
+    {
+        let resp = v.get_mut("response").unwrap().as_object_mut().unwrap();
+        match variant {
+            0 | 1 => {
+                label = "trailing-bytes";
+                let mut out = vec![];
+                if rng.chance(1, 3) {
+                    out.extend_from_slice(b")]}'\n");
+                }
+                out.extend_from_slice(&bytes);
+                if rng.bool() {
+                    out.extend_from_slice(b"\n");
+                }
+                match rng.below(6) {
+                    0 => out.extend_from_slice(b"}"),
+                    1 => out.extend_from_slice(b"<html><body>502 Bad Gateway</body></html>"),
+                    2 => out.extend_from_slice(b"0"),
+                    3 => out.extend_from_slice(b"]"),
+                    4 => out.extend_from_slice(&bytes),
+                    _ => out.extend_from_slice(b"null"),
+                }
+                return (out, label);
+            }
+            2 => {
+                label = "no-protocol";
+                resp.remove("protocol");
+            }
+            3 => {
+                label = "no-app-array";
+                resp.remove("app");
+            }
+            _ => {
+                let n = resp["app"].as_array().unwrap().len();
+                let ai = if variant >= 6 { oi } else { rng.usize(n) };
+                let app = resp.get_mut("app").unwrap().as_array_mut().unwrap()[ai].as_object_mut().unwrap();
+                match variant {
+                    4 => {
+                        label = "app-no-status";
+                        app.remove("status");
+                    }
+                    5 => {
+                        label = "app-no-appid";
+                        app.remove("appid");
+                    }
+                    _ => {
+                        let uc = app.get_mut("updatecheck").unwrap().as_object_mut().unwrap();
+                        match variant {
+                            6 | 7 => {
+                                label = "updatecheck-no-status";
+                                uc.remove("status");
+                                if variant == 7 {
+                                    uc.remove("manifest");
+                                    uc.remove("urls");
+                                }
+                            }
+                            8 => {
+                                label = "manifest-no-version";
+                                uc["manifest"].as_object_mut().unwrap().remove("version");
+                            }
+                            9 => {
+                                label = "manifest-no-packages";
+                                let m = uc["manifest"].as_object_mut().unwrap();
+                                if rng.bool() {
+                                    m.remove("packages");
+                                } else {
+                                    m.remove("actions");
+                                }
+                            }
+                            10 => {
+                                label = "url-no-codebase";
+                                uc["urls"]["url"][0].as_object_mut().unwrap().remove("codebase");
+                            }
+                            _ => {
+                                label = "package-no-required-field";
+                                let pk = uc["manifest"]["packages"]["package"][0].as_object_mut().unwrap();
+                                pk.remove(*rng.pick(&["name", "required", "fp"]));
+                            }
+                        }
+                    }
+                }
+            }
+        }
+    }
+    (serde_json::to_vec(&v).unwrap(), label)
 }
 
 /// Transient failure alphabet for attempts before the final one.
@@ -364,7 +463,13 @@ pub fn gen_check(rng: &mut Rng, apps: &[AppSpec], path: Path, cup: bool, cohorts
             for _ in 0..pre {
                 attempts.push(gen_transient(rng));
             }
-            attempts.push(RespSpec::Reply(ReplySpec::ok(BodySpec::Raw(garbage_body(rng)))));
+            if rng.bool() {
+                let (b, l) = near_valid_garbage(rng, apps);
+                label.push_str(l);
+                attempts.push(RespSpec::Reply(ReplySpec::ok(BodySpec::Raw(b))));
+            } else {
+                attempts.push(RespSpec::Reply(ReplySpec::ok(BodySpec::Raw(garbage_body(rng)))));
+            }
         }
         Path::NoUpdate => {
             for _ in 0..pre {
@@ -467,7 +572,7 @@ pub fn gen_history(rng: &mut Rng, cfg: &HistCfg) -> FlowCase {
             script.decisions.push(if rng.chance(1, 5) { Decision::OkDeferred(params) } else { Decision::Ok(params) });
         }
     }
-    let setup = Setup { apps, cup: cfg.cup, start_mode: cfg.start_mode, ..Default::default() };
+    let setup = Setup { apps, cup: cfg.cup, start_mode: cfg.start_mode, builder_order: rng.below(5) as u8, ..Default::default() };
     let mut case = FlowCase::new(setup, script);
     case.stop_idle = cfg.paths.len();
     case.nontrivial = cfg.paths.iter().any(|p| *p != Path::NoUpdate) || cfg.n_apps > 1 || cfg.paths.len() > 1;
@@ -663,7 +768,7 @@ pub fn add_reboot_waits(script: &mut Script, rng: &mut Rng, ping_docs: bool, app
                             docapps.push(DocApp { id: a.id.clone(), status: "ok".into(), cohort: [gen_cohort_field(rng), gen_cohort_field(rng), gen_cohort_field(rng)], updatecheck: None });
                         }
                     }
-                    RespSpec::Reply(ReplySpec::ok(BodySpec::Doc(DocSpec { daystart: gen_daystart(rng), apps: docapps })))
+                    RespSpec::Reply(ReplySpec::ok(BodySpec::Doc(DocSpec { daystart: gen_daystart(rng), apps: docapps, wrap: 0 })))
                 } else {
                     RespSpec::ack()
                 }
